@@ -26,6 +26,7 @@ import (
 	"strconv"
 	"strings"
 	"sync"
+	"sync/atomic"
 	"time"
 )
 
@@ -242,7 +243,33 @@ type shardResult struct {
 }
 
 // runShard runs one process of the harness binary.
+// runtimeCrashRetries counts shards that were run a second time because the
+// first attempt died from a fatal error of the Go runtime's memory manager.
+var runtimeCrashRetries atomic.Int64
+
+// runShard runs one shard; if the process dies without a result and its log
+// shows a heap-corruption fatal error of the Go runtime ("found pointer to free
+// object": seen once in about a dozen runs of the scenarios that create a
+// libp2p host per execution, never reproducible, not tied to the code under
+// test), the shard is run once more. The exploration is deterministic, so the
+// second attempt covers exactly the same space; a second crash is an error.
 func runShard(bin, wd string, p *prop, tier string, seed int64, i, n int, replayKey string, budget float64, tag string) (*shardResult, error) {
+	sr, err := runShardOnce(bin, wd, p, tier, seed, i, n, replayKey, budget, tag)
+	if err == nil || sr != nil {
+		return sr, err
+	}
+	logf := filepath.Join(wd, fmt.Sprintf("shard-%s%d.log", tag, i))
+	data, _ := os.ReadFile(logf)
+	if !bytes.Contains(data, []byte("fatal error: found pointer to free object")) && !bytes.Contains(data, []byte("fatal error: found bad pointer in Go heap")) {
+		return sr, err
+	}
+	os.Rename(logf, logf+".crashed")
+	runtimeCrashRetries.Add(1)
+	fmt.Fprintf(os.Stderr, "shard %d died from a Go runtime heap fatal error (log kept as %s.crashed); running it once more\n", i, logf)
+	return runShardOnce(bin, wd, p, tier, seed, i, n, replayKey, budget, tag)
+}
+
+func runShardOnce(bin, wd string, p *prop, tier string, seed int64, i, n int, replayKey string, budget float64, tag string) (*shardResult, error) {
 	out := filepath.Join(wd, fmt.Sprintf("shard-%s%d.json", tag, i))
 	os.Remove(out)
 	logf := filepath.Join(wd, fmt.Sprintf("shard-%s%d.log", tag, i))
@@ -502,6 +529,10 @@ func cmdCheck(args []string) int {
 	}
 
 	// free-running race-detector pass (sampled)
+	if n := runtimeCrashRetries.Load(); n > 0 {
+		c.Counters["shards_rerun_after_go_runtime_heap_fatal_error"] = n
+		c.Notes = append(c.Notes, fmt.Sprintf("%d shard(s) died from a fatal error of the Go runtime's memory manager (not an outcome of the check) and were run once more; the exploration is deterministic, the second attempt covered the same space", n))
+	}
 	if p.RacePkg != "" {
 		rv, rounds, rerr := racePass(p, wd, *tier)
 		if rerr != nil && nviol > 0 {
